@@ -161,6 +161,15 @@ def run(ctx: Ctx) -> None:
     outs = I.explore(fnq, lambda: (pai.Inst("validator.Validator"), [HDict({"type": "string"}), SNum.sym("v", 0, None, True)], {}))
     ctx.check(len(outs) == 1 and outs[0].value is True, "R1", "unannotated entry", repo.loc("validator", repo.func(fnq)), "always valid", f"an unannotated entry yields {[o.value for o in outs]}")
 
+    # ---- R0 annotations must be visible to the pruning ------------------------------------------------
+    ctx.rule("R0", "no minVersion / maxVersion annotation sits next to a $ref (jsonref replaces the whole object by its referent, dropping the siblings, so such an annotation is never seen by the version filter)", 90)
+    for fn, path, md in S.annotations_raw():
+        node = S.raw[fn]
+        for p in path:
+            node = node[p]
+        where = "/".join(str(x) for x in path)
+        ctx.check("$ref" not in node, "R0", f"{fn[:-5]}:{where}", f"mappyfile/schemas/{fn}", f"annotation {md}", f"{fn} {where}: the annotation {md} is a sibling of \"$ref\": {node.get('$ref')!r}; the expanded schema loses it and the entry is accepted at every version")
+
     # ---- R2 pruning on the schema files -------------------------------------------------------------
     ctx.rule("R2", "for every root type and version cut point the schema pruned by get_versioned_schema equals the reference pruning (annotated keywords, objects and alternatives present exactly inside their range, at every depth; unannotated entries untouched)", 100)
     singles = repo.const("tokens", "SINGLETON_COMPOSITE_NAMES")
